@@ -252,6 +252,17 @@ func cmdCheck(args []string) {
 			}
 		}
 	}
+	if eng != nil && len(eng.contracts.Immutables) > 0 {
+		n := "closed-world/immutable-after-init"
+		sm := &oblSummary{Name: n, Kind: "closed-world", Desc: "locations declared `immutable` are written only by their package's initialisation code (whole-module scan of every Store)", Contract: true, Status: "discharged", Solver: "ssa-scan", Instances: 1}
+		if len(eng.immProblems) > 0 {
+			sm.Status = "refuted"
+			sm.Detail = strings.Join(eng.immProblems, "; ")
+			sm.Model = sm.Detail
+		}
+		byName[n] = sm
+		names = append(names, n)
+	}
 	sort.Strings(names)
 
 	// ledger
